@@ -143,6 +143,10 @@ fixed("D22", ["C11"], "true < '12' was true: ordering comparisons with a bool on
 fixed("D23", ["C15"], "an empty line comment `--` swallowed the following line", "empty line comment swallowed",
       {"kind": "layout", "case": {"orig": "find all word start 'a' word end", "variant": "find all word start 'a' word--\nend", "texts": ["a b"]}})
 
+fixed("D25", ["C15"], "a block comment whose text ends in ')-' was never terminated: --( x )-)--; reported by a seeding sub-agent as a pre-existing oddity", "block comment whose text ends in",
+      {"kind": "layout", "case": {"orig": "find all 'a' 'b'", "variant": "find all 'a' --( x )-)-- 'b'", "texts": ["ab"]}})
+fixed("D26", ["C15"], "whitespace (or a comment) after `find all` with an empty body was a parse error; reported by a seeding sub-agent", "find command with an empty body",
+      {"kind": "layout", "case": {"orig": "find all", "variant": "find all\n", "texts": ["ab"]}})
 known("K1", ["C09", "C11"], "division / modulo by zero in process code panics (no documented result; needs a language decision)",
       "integer divide by zero", crash("set f to transform return 1 / 0 end replace all 'a' with f", "a"))
 known("K2", ["C09", "C12"], "a variable that is boolean on one branch and a number on the other reaches SHOULDN'T GET HERE (the checker keeps the last assigned type)",
